@@ -192,7 +192,7 @@ def curved_flow_cases(seed):
     from mininec.mininec import Mininec
     out = []
     for j, (name, mk) in enumerate(c12.curved_cases()):
-        m = Mininec(10.0, mk())
+        m = c12.build_curved(name, mk)
         rs = np.random.RandomState(seed + j)
         N = len(m.pulses)
         I = rs.randint(-9, 10, N) + 1j * rs.randint(-9, 10, N)
